@@ -9,6 +9,8 @@ C12.b  [type] for every N = 1..255 (both root kinds): 2^WIDTH_BITS >= N, SERIAL_
 C12.c  [effect+type] save() is const and reaches writes only to the stream and the buffer.
 C12.d  [flow] load(): per (loader active?, stored bit) the C01 change-or-reenter / initial enter / final exit contract with
        the entered state == the value read, no guards (rules/flow_rules.py).
+C12.e  [bitprov] the stream kernels write<N>/read<N> are exact at every serial-buffer size a machine can have (1..9 bits), for every
+       field width and start cursor -- including a field that ends on the last bit of the buffer (shares C13.d).
 """
 from lint import facts, ir, effects, loops, anchors, cfg as cfgmod
 from lint.common import AnalysisBroken
@@ -299,6 +301,16 @@ def run(run):
     run.guard('report', nfamily.report, run, run.tier, 'C12.b')
     from gen import static_units
     run.guard('report', static_units.report, run, 'C12.b', static_units.capacity_unit('C12.b'))
+    # the round trip goes through the bit-stream kernels at the buffer sizes machines really have: 1 + bit width of the state count, i.e.
+    # 1..9 bits (8 = a machine of 64..127 states, whose state index ends on the last bit of a one-byte buffer). Decided for every field
+    # width and start cursor by the bit-provenance interpretation of C13.d.
+    from rules import c13 as _c13
+    for v_ in facts.variants(run.tier)[:1]:
+        F_ = facts.load('w_streams', 'S', v_)
+        for cap_ in range(1, 10):
+            run.guard('stream kernels (capacity %d)' % cap_, _c13.value_level, run, F_, run.tier, cap_, 'C12.e')
+        facts.drop(F_)
+    run.floor('C12.e', 40)
     run.floor('C12.a', 40)
     run.floor('C12.b', 60)
     run.floor('C12.c', 20)
